@@ -40,6 +40,14 @@ def user_config(sc):
     }
 
 
+def transforms_of(sc):
+    scales = [s[0] / s[1] for s in sc["s"]]
+    fs = sc["fs"][0] / sc["fs"][1]
+    which = sc.get("which", "all")
+    return make_transforms(scales if which in ("all", "vars") else None, [float(o) for o in sc["o"]] if which in ("all", "vars") else None,
+                           [fs] if which in ("all", "obj") else None, [fs] if which in ("all", "con") else None)
+
+
 def run(sc, transforms):
     DesignPlugin.design = [DESIGN] * R
     rows, seen = [], []
@@ -49,8 +57,10 @@ def run(sc, transforms):
         for i in range(variables.shape[0]):
             rows.append((int(context.realizations[i]), -1 if perts is None else int(perts[i]), variables[i].copy()))
         r = context.realizations.astype(np.float64)
-        return EvaluatorResult(objectives=(variables[:, 0] + 2.0 * variables[:, 1] + r)[:, None],
-                               constraints=(variables[:, 0] - variables[:, 1] + r)[:, None])
+        obj = (variables[:, 0] + 2.0 * variables[:, 1] + r)[:, None]
+        if sc.get("fail"):                      # every realization fails: functions are not reported
+            obj = np.full_like(obj, np.nan)
+        return EvaluatorResult(objectives=obj, constraints=(variables[:, 0] - variables[:, 1] + r)[:, None])
 
     pm = graddrive.manager()
     pm.add_plugin("optimizer", "rvscript", ScriptPlugin())
@@ -64,6 +74,13 @@ def run(sc, transforms):
     rows.sort(key=lambda t: (t[0], t[1]))
     proj = {"outcome": exit_name(code) if outcome == "ok" else outcome, "rows": nums(np.concatenate([r[2] for r in rows]) if rows else []),
             "vars": [], "pert": [], "real": [], "funs": [], "diffs": [], "viols": []}
+    if fr is not None and fr.functions is None:
+        # failed evaluation: what is still reported (variables, bound and linear differences) must coincide as well
+        ci = fr.constraint_info
+        proj["vars"] = nums(fr.evaluations.variables)
+        proj["diffs"] = [] if ci is None else nums(np.concatenate([x for x in (ci.bound_lower, ci.bound_upper, ci.linear_lower, ci.linear_upper)
+                                                                    if x is not None]))
+        proj["viols"] = [] if ci is None else nums(np.concatenate([x for x in (ci.bound_violation, ci.linear_violation) if x is not None]))
     if fr is not None and fr.functions is not None and gr is not None:
         ci = fr.constraint_info
         proj["vars"] = nums(fr.evaluations.variables)
@@ -78,16 +95,16 @@ def run(sc, transforms):
 
 def drive(sc):
     scales = [s[0] / s[1] for s in sc["s"]]
-    fs = sc["fs"][0] / sc["fs"][1]
-    transforms = make_transforms(scales, [float(o) for o in sc["o"]], [fs], [fs])
+    transforms = transforms_of(sc)
     plain = run(sc, None)
     trans = run(sc, transforms)
     cfg_plain = EnOptConfig.model_validate(user_config(sc))
-    cfg_opt = EnOptConfig.model_validate(user_config(sc), context=make_transforms(scales, [float(o) for o in sc["o"]], [fs], [fs]))
+    cfg_opt = EnOptConfig.model_validate(user_config(sc), context=transforms_of(sc))
     x = np.array(sc["x"], dtype=np.float64)
     e = {"ev": "Pair", **{k: sc[k] for k in ("s", "o", "fs", "a", "l", "u", "x", "lb", "ub", "ptype")},
          "plain": plain, "trans": trans,
-         "roundtrip": nums(transforms.variables.from_optimizer(transforms.variables.to_optimizer(x))),
+         "which": sc.get("which", "all"), "fail": bool(sc.get("fail", False)),
+         "roundtrip": nums(x if transforms.variables is None else transforms.variables.from_optimizer(transforms.variables.to_optimizer(x))),
          "cfgplain": {"magn": nums(cfg_plain.gradient.perturbation_magnitudes)},
          "cfgopt": {"lb": nums(cfg_opt.variables.lower_bounds), "ub": nums(cfg_opt.variables.upper_bounds),
                     "coef": nums(cfg_opt.linear_constraints.coefficients[0]), "ll": num(cfg_opt.linear_constraints.lower_bounds[0]),
